@@ -103,7 +103,7 @@ func (s *genState) term() *Expr {
 		n := rapid.IntRange(1, 3).Draw(t, "nitems")
 		e := &Expr{K: KClass}
 		for i := 0; i < n; i++ {
-			if s.p.MaxRune && s.pct(6, "edgerange") {
+			if s.p.MaxRune && s.pct(15, "edgerange") {
 				// ranges that touch the ends of the code space
 				if rapid.Bool().Draw(t, "edgehi") {
 					e.Items = append(e.Items, Item{0x10FFFF - rune(rapid.IntRange(0, 3).Draw(t, "ew")), 0x10FFFF})
@@ -385,7 +385,7 @@ func (s *genState) dispatch(i, depth int, must, guarded bool) *Expr {
 	for j := 0; j < n; j++ {
 		lead := &Expr{K: KLit, Runes: []rune{perm[j]}}
 		alt := &Expr{K: KSeq}
-		switch k := rapid.IntRange(0, 17).Draw(t, "dprefix"); {
+		switch k := rapid.IntRange(0, 15).Draw(t, "dprefix"); {
 		case k == 0:
 			alt.Kids = append(alt.Kids, Un(KAnd, small("pa")))
 		case k == 1:
@@ -410,6 +410,23 @@ func (s *genState) dispatch(i, depth int, must, guarded bool) *Expr {
 			}
 		case k == 13:
 			alt.Kids = append(alt.Kids, Un(KOpt, &Expr{K: KAlt, Kids: []*Expr{small("no1"), small("no2")}}))
+		case k == 15:
+			// a nested choice mixing consuming and non-consuming alternatives, alone or in
+			// front of the leading character
+			var nc *Expr
+			switch rapid.IntRange(0, 2).Draw(t, "dmixed") {
+			case 0:
+				nc = &Expr{K: KAlt, Kids: []*Expr{small("m1"), Un(KAnd, small("m2"))}}
+			case 1:
+				nc = &Expr{K: KAlt, Kids: []*Expr{small("m1"), &Expr{K: KAct}}}
+			default:
+				nc = &Expr{K: KAlt, Kids: []*Expr{small("m1"), small("m2")}, EmptyLast: true}
+			}
+			alt.Kids = append(alt.Kids, nc)
+			if !must && rapid.Bool().Draw(t, "dmixedalone") {
+				e.Kids = append(e.Kids, alt)
+				continue
+			}
 		case k == 14 && guarded:
 			// recursion: a reference to any rule (possibly the one being generated, or an
 			// ancestor) in front of the leading character; safe because input has been
